@@ -2,7 +2,7 @@
 use alloc::{vec, vec::Vec};
 use core::iter::zip;
 
-use anyhow::{anyhow, Result};
+use anyhow::{anyhow, ensure, Result};
 use hashbrown::HashMap;
 use itertools::{zip_eq, Itertools};
 
@@ -38,6 +38,12 @@ pub trait WitnessWrite<F: Field> {
     where
         F: RichField,
     {
+        ensure!(
+            ct.0.len() == value.0.len(),
+            "Merkle cap has {} entries, but the target has {}.",
+            value.0.len(),
+            ct.0.len()
+        );
         for (ht, h) in ct.0.iter().zip(&value.0) {
             self.set_hash_target(*ht, *h)?;
         }
@@ -72,7 +78,12 @@ pub trait WitnessWrite<F: Field> {
     where
         F: RichField + Extendable<D>,
     {
-        debug_assert_eq!(ets.len(), values.len());
+        ensure!(
+            ets.len() == values.len(),
+            "Expected {} extension field values, but got {}.",
+            ets.len(),
+            values.len()
+        );
         for (&et, &v) in zip(ets, values) {
             self.set_extension_target(et, v)?;
         }
@@ -129,6 +140,13 @@ pub trait WitnessWrite<F: Field> {
         )?;
         self.set_cap_target(&proof_target.quotient_polys_cap, &proof.quotient_polys_cap)?;
 
+        // `to_fri_openings` leaves the lookup openings out when `lookup_zs` is empty.
+        ensure!(
+            proof.openings.lookup_zs.len() == proof_target.openings.lookup_zs.len()
+                && proof.openings.lookup_zs_next.len()
+                    == proof_target.openings.next_lookup_zs.len(),
+            "Unexpected number of lookup openings."
+        );
         self.set_fri_openings(
             &proof_target.openings.to_fri_openings(),
             &proof.openings.to_fri_openings(),
